@@ -17,6 +17,7 @@ CHECKS = {
     "C20": ("c20", {}),
     "C03": ("c03", {}),
     "C11": ("c11", {}),
+    "C05": ("c05", {}),
 }
 
 
